@@ -48,10 +48,14 @@ theorem gt_false_iff {a b : Num} : gt a b = false ↔ Le a b := by
 theorem lt_false_iff {a b : Num} : lt a b = false ↔ Le b a := by
   rw [← Bool.not_eq_true, lt_iff, not_lt]
 
-theorem numEq?_true {a b : Num} (h : numEq? a b = some true) : Num.cmp a b = 0 := by
-  unfold numEq? at h; split at h <;> simp_all
-theorem numEq?_false {a b : Num} (h : numEq? a b = some false) : Num.cmp a b ≠ 0 := by
-  unfold numEq? at h; split at h <;> simp_all
+/-! From here on the equality oracle is any oracle that is exact wherever it answers. -/
+variable [E : ExactOracle]
+
+theorem numEq?_true {a b : Num} (h : numEq? a b = some true) : Num.cmp a b = 0 :=
+  (E.exact a b true h).mp rfl
+theorem numEq?_false {a b : Num} (h : numEq? a b = some false) : Num.cmp a b ≠ 0 := fun hc => by
+  have := (E.exact a b false h).mpr hc
+  cases this
 
 theorem ge?_true {a b : Num} (h : ge? a b = some true) : Le b a := by
   unfold ge? at h; split at h
@@ -78,14 +82,20 @@ theorem le?_false {a b : Num} (h : le? a b = some false) : Lt b a := by
     unfold Le at h1; unfold Lt; omega
 
 /-! ### the specification predicates -/
+omit E in
 theorem aboveLower_none (x : Num) : aboveLower none x = true := rfl
+omit E in
 theorem belowUpper_none (x : Num) : belowUpper none x = true := rfl
+omit E in
 theorem aboveLower_incl {m x : Num} : aboveLower (some ⟨m, true⟩) x = true ↔ Le m x := by
   unfold aboveLower Le; have := cmp_swap m x; simp; omega
+omit E in
 theorem aboveLower_excl {m x : Num} : aboveLower (some ⟨m, false⟩) x = true ↔ Lt m x := by
   unfold aboveLower Lt; have := cmp_swap m x; simp; omega
+omit E in
 theorem belowUpper_incl {m x : Num} : belowUpper (some ⟨m, true⟩) x = true ↔ Le x m := by
   unfold belowUpper Le; simp
+omit E in
 theorem belowUpper_excl {m x : Num} : belowUpper (some ⟨m, false⟩) x = true ↔ Lt x m := by
   unfold belowUpper Lt; simp
 
@@ -93,19 +103,23 @@ theorem belowUpper_excl {m x : Num} : belowUpper (some ⟨m, false⟩) x = true 
 def Above (m : Num) (incl : Bool) (x : Num) : Prop := if incl then Le m x else Lt m x
 def Below (m : Num) (incl : Bool) (x : Num) : Prop := if incl then Le x m else Lt x m
 
+omit E in
 theorem aboveLower_some {m x : Num} {i : Bool} : aboveLower (some ⟨m, i⟩) x = true ↔ Above m i x := by
   cases i
   · exact aboveLower_excl
   · exact aboveLower_incl
+omit E in
 theorem belowUpper_some {m x : Num} {i : Bool} : belowUpper (some ⟨m, i⟩) x = true ↔ Below m i x := by
   cases i
   · exact belowUpper_excl
   · exact belowUpper_incl
 
+omit E in
 theorem Above.le {m x : Num} {i : Bool} (h : Above m i x) : Le m x := by
   cases i <;> simp [Above] at h
   · exact h.le
   · exact h
+omit E in
 theorem Below.le {m x : Num} {i : Bool} (h : Below m i x) : Le x m := by
   cases i <;> simp [Below] at h
   · exact h.le
